@@ -358,6 +358,135 @@ fn slice_case(len: usize, fill: usize, rep: &mut Report) {
     }
 }
 
+
+/// the stack *instructions* (instructions/stack.rs) on a bare interpreter: a prefix of PUSH32s,
+/// one instruction under test, STOP; legacy code for PUSHn/POP/DUPn/SWAPn, an EOF code section
+/// for DUPN/SWAPN/EXCHANGE. The Vec model decides result and final stack.
+fn instr_case(rng: &mut Rng, rep: &mut Report) {
+    use revm::interpreter::{Contract, DummyHost, InstructionResult, Interpreter, InterpreterAction, SharedMemory};
+    use revm::primitives::{eof::{EofBody, TypesSection}, Address, Bytecode, Bytes, Env, SpecId, U256};
+    let depth = match rng.below(8) {
+        0 => 0,
+        1 => 1,
+        2 => 2,
+        3 => 16 + rng.usize(3),
+        4 => 1022 + rng.usize(3),
+        5 => 255 + rng.usize(4),
+        _ => rng.usize(40),
+    };
+    let mut model: Vec<W> = vec![];
+    let mut code: Vec<u8> = vec![];
+    for _ in 0..depth {
+        let w = word(rng);
+        code.push(0x7f);
+        code.extend_from_slice(&w);
+        model.push(w);
+    }
+    let eof = rng.chance(1, 2);
+    // (name, opcode bytes, model effect)
+    let imm = rng.below(256) as u8;
+    let (name, bytes): (&str, Vec<u8>) = if eof {
+        match rng.below(3) {
+            0 => ("DUPN", vec![0xe6, imm]),
+            1 => ("SWAPN", vec![0xe7, imm]),
+            _ => ("EXCHANGE", vec![0xe8, imm]),
+        }
+    } else {
+        match rng.below(4) {
+            0 => {
+                let n = rng.below(33) as u8;
+                let mut b = vec![0x5f + n];
+                b.extend(rng.bytes(n as usize));
+                ("PUSHn", b)
+            }
+            1 => ("POP", vec![0x50]),
+            2 => ("DUPn", vec![0x80 + rng.below(16) as u8]),
+            _ => ("SWAPn", vec![0x90 + rng.below(16) as u8]),
+        }
+    };
+    code.extend_from_slice(&bytes);
+    code.push(0x00);
+    // model
+    let len = model.len();
+    let before = model.clone();
+    let want: Result<(), &str> = match name {
+        "PUSHn" => {
+            if len == 1024 { Err("StackOverflow") } else {
+                let mut w = [0u8; 32];
+                let n = bytes.len() - 1;
+                w[32 - n..].copy_from_slice(&bytes[1..]);
+                model.push(w);
+                Ok(())
+            }
+        }
+        "POP" => if len == 0 { Err("StackUnderflow") } else { model.pop(); Ok(()) },
+        "DUPn" | "DUPN" => {
+            let n = if name == "DUPn" { (bytes[0] - 0x80) as usize + 1 } else { imm as usize + 1 };
+            if len < n { Err("StackUnderflow") } else if len == 1024 { Err("StackOverflow") } else { let w = model[len - n]; model.push(w); Ok(()) }
+        }
+        "SWAPn" | "SWAPN" => {
+            let n = if name == "SWAPn" { (bytes[0] - 0x90) as usize + 1 } else { imm as usize + 1 };
+            if len < n + 1 { Err("StackUnderflow") } else { model.swap(len - 1, len - 1 - n); Ok(()) }
+        }
+        _ => {
+            let n = (imm >> 4) as usize + 1;
+            let m = (imm & 0x0f) as usize + 1;
+            if len < n + m + 1 { Err("StackUnderflow") } else { model.swap(len - 1 - n, len - 1 - n - m); Ok(()) }
+        }
+    };
+    rep.eval();
+    rep.cell("instruction_cases", name);
+    let case = || json!({"kind": "instruction", "instruction": name, "opcode_bytes": hex(&bytes), "depth": depth, "eof": eof});
+    let bytecode = if eof {
+        let body = EofBody { types_section: vec![TypesSection::new(0, 0x80, 1023)], code_section: vec![Bytes::from(code.clone())], container_section: vec![], data_section: Bytes::new(), is_data_filled: true };
+        Bytecode::Eof(std::sync::Arc::new(body.into_eof()))
+    } else {
+        Bytecode::new_legacy(Bytes::from(code.clone()))
+    };
+    let r = guarded(|| {
+        let spec = if eof { SpecId::OSAKA } else { SpecId::CANCUN };
+        let table = crate::interp::table_for(spec);
+        let mut host = DummyHost::new(Env::default());
+        let contract = Contract::new(Bytes::new(), bytecode, None, Address::ZERO, None, Address::ZERO, U256::ZERO);
+        let mut interp = Interpreter::new(contract, 10_000_000, false);
+        let mut mem = SharedMemory::new();
+        mem.new_context();
+        let act = interp.run(mem, &table, &mut host);
+        let res = match act {
+            InterpreterAction::Return { result } => result.result,
+            _ => InstructionResult::FatalExternalError,
+        };
+        let data: Vec<W> = interp.stack.data().iter().map(|u| u.to_be_bytes::<32>()).collect();
+        (res, data)
+    });
+    let (res, data) = match r {
+        Ok(x) => x,
+        Err(p) => {
+            report_panic(rep, "C12", &p, case());
+            return;
+        }
+    };
+    rep.nontrivial(hash64(&code));
+    match want {
+        Ok(()) => {
+            if res != InstructionResult::Stop {
+                rep.violation(format!("C12/instruction/{name}/unexpected-result"), format!("{name} {} at depth {depth} ended {res:?}, the model succeeds", hex(&bytes)), case());
+            } else if data != model {
+                let i = data.iter().zip(model.iter()).position(|(a, b)| a != b).unwrap_or(data.len().min(model.len()));
+                rep.violation(format!("C12/instruction/{name}/contents"), format!("{name} {} at depth {depth}: stack differs from the model at index {i} (lengths {} vs {})", hex(&bytes), data.len(), model.len()), case());
+            }
+        }
+        Err(e) => {
+            rep.count(&format!("instruction_errors/{e}"));
+            if format!("{res:?}") != e {
+                rep.violation(format!("C12/instruction/{name}/error-not-reported"), format!("{name} {} at depth {depth} ended {res:?}, the model reports {e}", hex(&bytes)), case());
+            } else if data != before {
+                rep.violation(format!("C12/instruction/{name}/error-changed-stack"), format!("{name} {} at depth {depth}: stack changed although {e} was reported", hex(&bytes)), case());
+            }
+        }
+    }
+}
+
 pub fn run(ctx: &Ctx) -> i32 {
     let mut rep;
     let miri = ctx.lane == "miri";
@@ -423,6 +552,14 @@ pub fn run(ctx: &Ctx) -> i32 {
             }
         });
         rep.merge(r2);
+        // the stack instructions on a bare interpreter
+        let n_instr = if miri { ctx.n(60, 300) } else { ctx.n(40_000, 2_000_000) };
+        let r3 = par_shards(ctx, nshard, |_i, rng, rep| {
+            for _ in 0..(n_instr / nshard as u64).max(1) {
+                instr_case(rng, rep);
+            }
+        });
+        rep.merge(r3);
         rep.extra.insert("push_slice_lengths_swept".into(), json!(lens.len()));
         rep.extra.insert("push_slice_sweep_exhaustive_0_to_32832".into(), json!(exhaustive));
         if !miri {
@@ -437,7 +574,7 @@ pub fn run(ctx: &Ctx) -> i32 {
     }
     finish(ctx, rep, Finish {
         level: "exploration",
-        rule: "random op sequences (1..48 ops: push, push_b256, pop, peek, set, dup n>=1, swap n>=1, exchange(n, m>=1), push_slice) on revm_interpreter::Stack prefilled to a boundary level {0,1,2,16,17,512,1022,1023,1024,random}, against Vec<[u8;32]>; contents compared after every op (full compare after errors/multi-word pushes/swaps/sets/small stacks, top-40 window otherwise); plus a push_slice sweep over lengths x fill levels (exhaustive 0..=32832 in the thorough tier). Expected words for push_slice: 32-byte big-endian chunks from the left, short last chunk zero-extended (PUSHn semantics; DESIGN C12 explains the reading). Non-trivial = every op-sequence case (distinct by generator seed) and every sweep case with len>0.".into(),
+        rule: "random op sequences (1..48 ops: push, push_b256, pop, peek, set, dup n>=1, swap n>=1, exchange(n, m>=1), push_slice) on revm_interpreter::Stack prefilled to a boundary level {0,1,2,16,17,512,1022,1023,1024,random}, against Vec<[u8;32]>; contents compared after every op (full compare after errors/multi-word pushes/swaps/sets/small stacks, top-40 window otherwise); plus a push_slice sweep over lengths x fill levels (exhaustive 0..=32832 in the thorough tier). Expected words for push_slice: 32-byte big-endian chunks from the left, short last chunk zero-extended (PUSHn semantics; DESIGN C12 explains the reading). Plus the stack instructions (PUSH0..32, POP, DUP1..16, SWAP1..16 in legacy code; DUPN, SWAPN, EXCHANGE with every immediate in an EOF code section) executed on a bare interpreter after a prefix of 0..1024 PUSH32s: result (Stop / StackUnderflow / StackOverflow) and the final stack against the same model. Non-trivial = every op-sequence case (distinct by generator seed) and every sweep case with len>0.".into(),
         assumptions: vec!["dup(0)/exchange(_,0) are documented caller errors and are not generated".into()],
     })
 }
